@@ -413,3 +413,117 @@ theorem replay_exact (m : List Region) (ksA keA : Nat) (n : Nat) (b' : Boot) (fs
   rw [this]; exact h
 
 end Firefly.Pmm
+
+namespace Firefly.Pmm
+open Firefly.Gen.Pmm
+
+/-- if the cursor is at or past the last frame of every candidate region, the scan finds nothing
+and leaves the allocator unchanged -/
+theorem bootScan_all_skipped (m : List Region) (b : Boot)
+    (h : ∀ r ∈ m, Cand r → b.last ≥ regionEndExcl r - 1) : bootScan b m = (b, none) := by
+  induction m with
+  | nil => rfl
+  | cons r rs ih =>
+    unfold bootScan
+    by_cases hcand : r.typ ≠ memAvailable ∨ r.len < pageSize
+    · rw [if_pos hcand]; exact ih (fun r' hr' => h r' (List.mem_cons_of_mem _ hr'))
+    · rw [if_neg hcand]
+      have hc : Cand r := ⟨Classical.not_not.1 fun hh => hcand (Or.inl hh),
+        Nat.le_of_not_lt fun hh => hcand (Or.inr hh)⟩
+      dsimp only
+      rw [if_pos (h r (by simp) hc)]
+      exact ih (fun r' hr' => h r' (List.mem_cons_of_mem _ hr'))
+
+/-- a failed scan leaves the cursor at or past the last frame of every candidate region (and never
+moves it backwards) -/
+theorem bootScan_none_past_all (m : List Region) (b : Boot)
+    (hgeo : ∀ r ∈ m, Cand r → GeoOk b.kStart b.kEnd r) (hchain : Chain m)
+    (hk : b.kStart ≤ b.kEnd)
+    (hI : b.allocCount = 0 → ∀ r ∈ m, Cand r → b.last ≤ regionStart r)
+    (hN : b.allocCount ≠ 0 → ¬ (b.kStart ≤ b.last ∧ b.last ≤ b.kEnd))
+    (hnone : (bootScan b m).2 = none) :
+    b.last ≤ (bootScan b m).1.last ∧
+    ∀ r ∈ m, Cand r → (bootScan b m).1.last ≥ regionEndExcl r - 1 := by
+  induction m generalizing b with
+  | nil => exact ⟨Nat.le_refl _, fun r hr => by cases hr⟩
+  | cons r rs ih =>
+    have hchain' : Chain rs := (List.pairwise_cons.1 hchain).2
+    have hhead := (List.pairwise_cons.1 hchain).1
+    unfold bootScan at hnone ⊢
+    by_cases hcand : r.typ ≠ memAvailable ∨ r.len < pageSize
+    · rw [if_pos hcand] at hnone ⊢
+      obtain ⟨i1, i2⟩ := ih b (fun r' hr' => hgeo r' (List.mem_cons_of_mem _ hr')) hchain' hk
+        (fun h0 r' hr' => hI h0 r' (List.mem_cons_of_mem _ hr')) hN hnone
+      refine ⟨i1, fun r' hr' hc' => ?_⟩
+      rw [List.mem_cons] at hr'
+      rcases hr' with rfl | hr'
+      · exact absurd hc' (fun hc' => by
+          unfold Cand at hc'
+          rcases hcand with h | h
+          · exact h hc'.1
+          · omega)
+      · exact i2 r' hr' hc'
+    · rw [if_neg hcand] at hnone ⊢
+      have hc : Cand r := ⟨Classical.not_not.1 fun hh => hcand (Or.inl hh),
+        Nat.le_of_not_lt fun hh => hcand (Or.inr hh)⟩
+      dsimp only at hnone ⊢
+      by_cases hskip : b.last ≥ regionEndExcl r - 1
+      · rw [if_pos hskip] at hnone ⊢
+        obtain ⟨i1, i2⟩ := ih b (fun r' hr' => hgeo r' (List.mem_cons_of_mem _ hr')) hchain' hk
+          (fun h0 r' hr' => hI h0 r' (List.mem_cons_of_mem _ hr')) hN hnone
+        refine ⟨i1, fun r' hr' hc' => ?_⟩
+        rw [List.mem_cons] at hr'
+        rcases hr' with rfl | hr'
+        · omega
+        · exact i2 r' hr' hc'
+      · rw [if_neg hskip] at hnone ⊢
+        have g1 := cand_start_lt_endUp hc
+        have g2 := cand_endExcl_le_endUp r
+        have g3 := cand_endExcl_pos hc
+        obtain ⟨n1, n2, n3, n4⟩ := bootNext_facts b (regionStart r) (regionEndExcl r - 1) (regionEndUp r)
+          g1 (by omega) hk (hgeo r (by simp) hc) (fun h0 => hI h0 r (by simp) hc) hN (by omega)
+        by_cases hover : bootNext b (regionStart r) (regionEndExcl r - 1) > regionEndExcl r - 1
+        · rw [if_pos hover] at hnone ⊢
+          obtain ⟨i1, i2⟩ := ih { b with last := bootNext b (regionStart r) (regionEndExcl r - 1) }
+            (fun r' hr' => hgeo r' (List.mem_cons_of_mem _ hr')) hchain' hk
+            (fun _ r' hr' hc' => by
+              have := hhead r' hr' hc hc'
+              show bootNext b _ _ ≤ _
+              omega)
+            (fun _ => n2) hnone
+          have i1' : bootNext b (regionStart r) (regionEndExcl r - 1) ≤
+              (bootScan { b with last := bootNext b (regionStart r) (regionEndExcl r - 1) } rs).1.last := i1
+          have hmono : b.last ≤ bootNext b (regionStart r) (regionEndExcl r - 1) := by
+            by_cases hac : b.allocCount = 0
+            · have := hI hac r (by simp) hc; omega
+            · exact Nat.le_of_lt (n3 hac)
+          refine ⟨by omega, fun r' hr' hc' => ?_⟩
+          rw [List.mem_cons] at hr'
+          rcases hr' with rfl | hr'
+          · omega
+          · exact i2 r' hr' hc'
+        · rw [if_neg hover] at hnone
+          simp at hnone
+
+/-- **out-of-memory is final** — once an allocation fails (from a state reached by successful
+allocations), every later allocation fails too and the allocator state no longer changes. -/
+theorem bootAlloc_oom_final {m : List Region} {b b' : Boot}
+    (hgeo : ∀ r ∈ m, Cand r → GeoOk b.kStart b.kEnd r) (hchain : Chain m)
+    (hk : b.kStart ≤ b.kEnd) (hb : BootOk b) (h : bootAlloc m b = (b', none)) :
+    bootAlloc m b' = (b', none) := by
+  unfold bootAlloc at h
+  cases hs : bootScan b m with
+  | mk b1 r =>
+    cases r with
+    | some g => simp [hs] at h
+    | none =>
+      simp only [hs] at h
+      injection h with h1 _
+      subst h1
+      have hp := bootScan_none_past_all m b hgeo hchain hk
+        (fun h0 r _ _ => by rw [hb.1 h0]; exact Nat.zero_le _) hb.2 (by rw [hs])
+      rw [hs] at hp
+      unfold bootAlloc
+      rw [bootScan_all_skipped m b1 hp.2]
+
+end Firefly.Pmm
